@@ -6,10 +6,9 @@ groups=("C17 C01" "C12 C18 C16" "C02 C03 C04 C15" "C11 C05 C07 C13" "C19 C06 C08
 k=0
 for g in "${groups[@]}"; do
   k=$((k+1)); rm -rf /tmp/vpar_$k; cp -a /verif /tmp/vpar_$k
-  (VERIF_ROOT=/tmp/vpar_$k python3 /tmp/vpar_$k/tools/storewave.py $g > /tmp/parwave_$k.log 2>&1 &)
+  VERIF_ROOT=/tmp/vpar_$k python3 /tmp/vpar_$k/tools/storewave.py $g > /tmp/parwave_$k.log 2>&1 &
 done
-sleep 5
-while pgrep -f "tools/storewave.py" > /dev/null; do sleep 10; done
+wait      # (the workers are jobs of this shell)
 python3 - <<'PY'
 import json, glob, os
 tot = 0
